@@ -711,7 +711,9 @@ fn gen_fbound(r: &mut Rng) -> Option<f64> {
 fn fmembers(r: &mut Rng, i: (Option<f64>, Option<f64>)) -> Vec<f64> {
     let lo = i.0.unwrap_or(f64::MIN);
     let hi = i.1.unwrap_or(f64::MAX);
-    let mut v = vec![lo, hi, lo / 2.0 + hi / 2.0];
+    let mut v = vec![lo, hi];
+    let mid = lo / 2.0 + hi / 2.0; // may underflow to (-)0 for subnormal endpoints: keep it only if it is a member
+    if lo <= mid && mid <= hi { v.push(mid); }
     for c in [0.0, 1.0, -1.0, 1e-300, -1e-300, 3.0, -3.0, 0.1] { if lo <= c && c <= hi { v.push(c); } }
     for _ in 0..4 {
         let t = (r.next() >> 11) as f64 / (1u64 << 53) as f64;
